@@ -166,7 +166,7 @@ def option_specs(draw, spec):
     term = sorted(set([s for s in range(n) if spec["absorbing"][s]] + extra))
     init = draw(st.lists(st.integers(0, n - 1), min_size=1, max_size=n, unique=True))
     return {"policy": draw(policy_specs(spec)), "term": term, "init": sorted(init), "max_steps": draw(st.sampled_from([2, 3, 5, 10, 30, 30, 30])),
-            "name": draw(st.sampled_from(["go", "opt-a", "left", "zz"]))}
+            "name": draw(st.sampled_from(["go", "opt-a", "left", "zz", None]))}
 
 
 @st.composite
@@ -196,7 +196,7 @@ def make_option(ospec, view, name_suffix=""):
 
     class SpecOption(Option):
         def __init__(self):
-            self.name = ospec["name"] + name_suffix
+            self.name = None if ospec["name"] is None else ospec["name"] + name_suffix
             self.policy = FunctionalPolicy(f)
             self.max_steps = ospec["max_steps"]
 
@@ -206,8 +206,6 @@ def make_option(ospec, view, name_suffix=""):
         def is_terminal(self, s):
             return s in term
 
-        def __repr__(self):
-            return f"SpecOption({self.name})"
     return SpecOption()
 
 
@@ -394,12 +392,12 @@ def prop_smdp(case, ctx):
 
 
 PROPS = [
-    Prop("augment", lambda tier: augment_cases(tier), prop_augment, quick=1500, thorough=30000,
+    Prop("augment", lambda tier: augment_cases(tier), prop_augment, quick=1500, thorough=90000,
          doc="augment(): every non-overridden component (incl. discount rate and lists) equals the base, overridden ones the replacement"),
-    Prop("subgoal", lambda tier: subgoal_cases(tier), prop_subgoal, quick=500, thorough=10000,
+    Prop("subgoal", lambda tier: subgoal_cases(tier), prop_subgoal, quick=500, thorough=30000,
          doc="PlanToSubgoalOption plans on (base discount, clipped rewards, sub-goals absorbing): compared with the reference optimum"),
-    Prop("option_run", lambda tier: run_cases(tier), prop_option_run, quick=4000, thorough=80000,
+    Prop("option_run", lambda tier: run_cases(tier), prop_option_run, quick=4000, thorough=240000,
          doc="Option.run_on ends exactly at the first terminal state or raises at its step limit"),
-    Prop("smdp", lambda tier: smdp_cases(tier), prop_smdp, quick=600, thorough=12000,
+    Prop("smdp", lambda tier: smdp_cases(tier), prop_smdp, quick=600, thorough=36000,
          doc="semi-MDP outcome distribution equals the empirical distribution of its own simulations; primitive actions; marginals"),
 ]
